@@ -68,15 +68,22 @@ pub const RPC_NAMES: [&str; 5] = ["Greeter", "example.helloworld.Greeter", "a.b"
 
 #[derive(Clone)]
 pub struct TagLayer(pub u64);
-#[derive(Clone)]
+/// A layer that insists on the tower contract, as `ConcurrencyLimit`, `Buffer` and `RateLimit` do:
+/// `call` only after THIS instance reported ready; a clone starts un-ready.
 pub struct TagLayerSvc<S> {
     inner: S,
     tag: u64,
+    ready: bool,
+}
+impl<S: Clone> Clone for TagLayerSvc<S> {
+    fn clone(&self) -> Self {
+        TagLayerSvc { inner: self.inner.clone(), tag: self.tag, ready: false }
+    }
 }
 impl<S> Layer<S> for TagLayer {
     type Service = TagLayerSvc<S>;
     fn layer(&self, inner: S) -> Self::Service {
-        TagLayerSvc { inner, tag: self.0 }
+        TagLayerSvc { inner, tag: self.0, ready: false }
     }
 }
 impl<S> Service<Request<Bytes>> for TagLayerSvc<S>
@@ -88,9 +95,21 @@ where
     type Error = Infallible;
     type Future = Pin<Box<dyn Future<Output = Result<Response<Bytes>, Infallible>> + Send>>;
     fn poll_ready(&mut self, cx: &mut Context<'_>) -> Poll<Result<(), Infallible>> {
-        self.inner.poll_ready(cx)
+        let r = self.inner.poll_ready(cx);
+        if r.is_ready() {
+            self.ready = true;
+        }
+        r
     }
     fn call(&mut self, mut req: Request<Bytes>) -> Self::Future {
+        if !std::mem::replace(&mut self.ready, false) {
+            let tag = self.tag;
+            return Box::pin(async move {
+                let mut resp = Response::new(Bytes::new()).with_status(StatusCode::InternalServerError);
+                resp.headers_mut().insert("unready-call".into(), tag.to_string());
+                Ok(resp)
+            });
+        }
         let t = match req.headers().get("trail") {
             Some(t) => format!("{t}.{}", self.tag),
             None => self.tag.to_string(),
@@ -116,15 +135,35 @@ fn quiet<T>(f: impl FnOnce() -> T) -> Result<T, String> {
     catch_unwind(AssertUnwindSafe(f)).map_err(|p| p.downcast_ref::<String>().cloned().or_else(|| p.downcast_ref::<&str>().map(|s| s.to_string())).unwrap_or_default())
 }
 
+/// the request as the serving side receives it: written by the real encoder, read by the real decoder
+fn over_the_wire(path: &str) -> Result<Request<Bytes>, String> {
+    use anemo::verif::wire as hook;
+    use tokio_util::codec::{FramedRead, FramedWrite};
+    let cfg = anemo::Config::default();
+    let req = Request::new(Bytes::new()).with_route(path);
+    let mut w = FramedWrite::new(Vec::<u8>::new(), hook::codec(&cfg));
+    futures::executor::block_on(hook::write_request(&mut w, req)).map_err(|e| format!("write:{e}"))?;
+    let bytes = w.get_ref().clone();
+    let mut rd = FramedRead::new(&bytes[..], hook::codec(&cfg));
+    futures::executor::block_on(hook::read_request(&mut rd)).map_err(|e| format!("read:{e}"))
+}
+
 fn call(rt: &tokio::runtime::Runtime, r: &Router, path: &str) -> String {
     let before = INVOCATIONS.load(Ordering::SeqCst);
-    let res = quiet(|| rt.block_on(r.clone().oneshot(Request::new(Bytes::new()).with_route(path))));
+    let req = match quiet(|| over_the_wire(path)) {
+        Ok(Ok(r)) => r,
+        Ok(Err(e)) => return format!("wire-error:{}", e.replace(' ', "_")),
+        Err(p) => return format!("panic:{}", p.replace(' ', "_")),
+    };
+    let res = quiet(|| rt.block_on(r.clone().oneshot(req)));
     let n = INVOCATIONS.load(Ordering::SeqCst) - before;
     match res {
         Err(p) => format!("panic:{}", p.replace(' ', "_")),
         Ok(Err(_)) => "infallible?".into(),
         Ok(Ok(resp)) => {
-            if resp.status() == StatusCode::NotFound {
+            if let Some(t) = resp.headers().get("unready-call") {
+                format!("call-without-poll_ready:layer-{t}")
+            } else if resp.status() == StatusCode::NotFound {
                 if let Some(st) = resp.headers().get("stamped-by") {
                     format!("404-through-layer:{st}")
                 } else if n != 0 {
@@ -195,6 +234,7 @@ pub fn run_c16(run: &mut Run, replay: Option<&std::path::Path>) -> anyhow::Resul
     if let Some(p) = replay {
         return replay_ops(run, &rt, p);
     }
+    generated_services(run, &rt);
     let mut rng = Rng::new(run.seed);
     let nprog = if run.quick() { 700 } else { 12_000 };
     for _ in 0..nprog {
@@ -329,6 +369,55 @@ pub fn run_c16(run: &mut Run, replay: Option<&std::path::Path>) -> anyhow::Resul
         }
     }
     Ok(())
+}
+
+/// the generated servers of the harness family (build.rs: Alpha without package, pkg.sub.Beta, solo.Gamma)
+/// registered with `add_rpc_service`: every method route of the definition must be served, by that
+/// service, and a sibling name must not be
+fn generated_services(run: &mut Run, rt: &tokio::runtime::Runtime) {
+    use crate::codegen::{alpha, beta, gamma, Instr, Msg, H};
+    let h = H::default();
+    let router = Router::new()
+        .add_rpc_service(alpha::alpha_server::AlphaServer::new(h.clone()))
+        .route("/other", TagSvc(1))
+        .add_rpc_service(beta::beta_server::BetaServer::new(h.clone()))
+        .add_rpc_service(gamma::gamma_server::GammaServer::new(h.clone()))
+        .route_layer(TagLayer(7))
+        .route_layer(TagLayer(8));
+    let msg = Msg { id: 1, via: String::new(), instr: Instr::Reply };
+    let bin = Bytes::from(bincode::serialize(&msg).unwrap());
+    let js = Bytes::from(serde_json::to_vec(&msg).unwrap());
+    let cases: [(&str, &Bytes, Option<&str>); 10] = [
+        ("/Alpha/Ping", &bin, Some("Alpha.ping")),
+        ("/Alpha/RawEcho", &js, Some("Alpha.raw_echo")),
+        ("/pkg.sub.Beta/One", &js, Some("Beta.m_one")),
+        ("/pkg.sub.Beta/Two", &js, Some("Beta.m_two")),
+        ("/pkg.sub.Beta/Three", &bin, Some("Beta.m_three")),
+        ("/solo.Gamma/only", &bin, Some("Gamma.only")),
+        ("/.Alpha/Ping", &bin, None),
+        ("/Beta/One", &js, None),
+        ("/pkg.sub.Beta", &js, None),
+        ("/Gamma/only", &bin, None),
+    ];
+    for (path, body, want) in cases {
+        let before = h.0.lock().unwrap().len();
+        let req = Request::new((*body).clone()).with_route(path);
+        let res = quiet(|| rt.block_on(router.clone().oneshot(req)));
+        let reached: Vec<String> = h.0.lock().unwrap()[before..].iter().map(|x| x.0.clone()).collect();
+        let status = match &res {
+            Ok(Ok(r)) => format!("{:?}", r.status()),
+            _ => "panic".into(),
+        };
+        let ok = match want {
+            Some(m) => reached == vec![m.to_string()] && status == "Success",
+            None => reached.is_empty() && status == "NotFound",
+        };
+        run.eval(&format!("generated-service {path}"), true);
+        run.count("generated-service", if ok { "as-expected" } else { "wrong" });
+        if !ok {
+            run.oracle_fail(json!({"kind": "router: a generated RPC service registered with add_rpc_service is not reached by (exactly) its own method routes", "path": path, "status": status, "handlers_reached": reached, "expected_handler": want}));
+        }
+    }
 }
 
 fn replay_ops(run: &mut Run, rt: &tokio::runtime::Runtime, path: &std::path::Path) -> anyhow::Result<()> {
